@@ -116,7 +116,7 @@ def code_text(ch):
     return (ch * 6)[:6]
 
 
-def concretize(case, rule):
+def concretize(case, rule, variant=0):
     """-> dict(old=[lines], new=[lines], entries=[(op, old_text|None, new_text|None)], unreliable=bool)"""
     ops, blocks = case["ops"], case["blocks"]
     n = len(ops)
@@ -131,6 +131,7 @@ def concretize(case, rule):
         if L["elines"] == 2:
             role[b["pe"] - 1] = ("CP", bi, name)
     entries = []
+    emptied = False
     pool = (a + b for a in POOL for b in POOL if a != b)       # two-character code lines: 32 x 31 distinct
     for k in range(1, n + 1):
         op = ops[k - 1]
@@ -138,6 +139,9 @@ def concretize(case, rule):
         if r is None:
             old_t = code_text(next(pool)) if op in ("K", "D", "N", "n") else None
             new_t = old_t if op in ("K", "N", "n") else (code_text(next(pool)) if op == "I" else None)
+            if op == "I" and variant % 5 == 2 and not emptied:
+                new_t = ""                 # an inserted (or, paired with a removed line, "edited") line that is empty
+                emptied = True
             if op == "M":
                 raise vlib.ToolError("M on a code line")
         else:
@@ -174,7 +178,10 @@ def concretize(case, rule):
     # a terminator-only op (N: the old file ends without a line terminator, n: the new one) is about the file's
     # last line: such scripts get no tail (and no far block)
     term = "N" if "N" in ops else ("n" if "n" in ops else None)
-    if term is None:
+    # scripts that end with deletions: half of them also without a tail, i.e. the old file is longer than the new one
+    # and a deletion recorded at its old line number (DV1) lies beyond the end of the file that is parsed
+    notail = term is not None or (ops[-1] == "D" and variant % 2 == 0)
+    if not notail:
         for t in tail:
             entries.append(("K", t, t, "tail"))
     old = [e[1] for e in entries if e[0] in ("K", "D", "M", "N", "n")]
@@ -195,7 +202,7 @@ def concretize(case, rule):
             if xa != xb and ea[3] != "code" and eb[3] != "code" and ea[1] != "@" * 20:
                 unreliable = True
         k = j
-    return dict(old=old, new=new, entries=entries, unreliable=unreliable, term=term)
+    return dict(old=old, new=new, entries=entries, unreliable=unreliable, term=term, notail=notail)
 
 
 ALT_NAME = "src dir/caf\u00e9.js"
@@ -342,7 +349,7 @@ def replay(chk, cases, what, U_of=lambda ci: (0, 1, 3)[ci % 3], cli_sample=0):
     rule = "affects" if what == "C01" else "count"
     batch, meta = [], {}
     for ci, case in enumerate(cases):
-        conc = concretize(case, rule)
+        conc = concretize(case, rule, ci)
         U = U_of(ci)
         diff = synth_diff(conc["entries"], U, rename_from=("old_dir/was_f.js" if ci % 4 == 3 else None))
         new_text = new_text_of(conc)
@@ -517,7 +524,7 @@ def judge_case(chk, what, case, conc, diff, U, rs, via):
         chk.violation("%s: exit=%s with %d diagnostics" % (via, rr["exit"], len(diags)), {"abstract": case, "concrete": conc_case})
     # far block zz never reported in diff mode without globs
     zline = len(conc["new"]) - 2
-    if conc.get("term") is None and by_line.get(zline):
+    if not conc.get("notail") and by_line.get(zline):
         chk.violation("%s: untouched far block zz reported in diff mode" % via, {"abstract": case, "concrete": conc_case})
     if what == "C02" and rs.get("globmiss") is not None:
         # a path argument that matches nothing must not take the diff's own files out of scope
@@ -530,7 +537,7 @@ def judge_case(chk, what, case, conc, diff, U, rs, via):
     if what == "C02" and rs.get("glob") is not None:
         rg = rs["glob"]
         gd = (rg["report"] or {}).get("f.js") or []
-        want = len(case["blocks"]) + (1 if conc.get("term") is None else 0)
+        want = len(case["blocks"]) + (0 if conc.get("notail") else 1)
         if rg["outcome"] != "ok" or len([d for d in gd if d["code"] == code]) != want:
             chk.violation("%s: with a path argument every block of the file must be validated: %d of %d reported" % (
                 via, len(gd), want), {"abstract": case, "concrete": dict(conc_case, args=["f.js"])})
